@@ -22,6 +22,9 @@ _DIGESTS = set()
 _STEPS = [0]
 ACTIONS = ['open', 'open_rej', 'open_ws', 'close_post', 'disconnect_api', 'ws_close', 'vanish',
            'poll', 'upgrade', 'half_upgrade', 'save', 'tick', 'bad_post']
+# second pass: histories that start in the state "first PING is outstanding" (short heartbeat)
+ACTIONS2 = ['talk', 'vanish', 'poll', 'tick', 'send', 'upgrade', 'half_upgrade', 'pong', 'close_post']
+INTERVAL2 = 2.0
 
 
 class Sess:
@@ -93,6 +96,22 @@ def apply_action(w, ss, rejected, a):
         else:
             s.ws = None
             s.half = False
+    elif a == 'talk':
+        # application data instead of the PONG
+        if s.kind == 'websocket' and s.ws is not None and not s.half:
+            w.ws_send(s.ws, '4still-here')
+            w.run()
+        else:
+            peer.post(w, s.sid, '4still-here')
+    elif a == 'pong':
+        if s.kind == 'websocket' and s.ws is not None and not s.half:
+            w.ws_send(s.ws, '3')
+            w.run()
+        else:
+            peer.post(w, s.sid, '3')
+    elif a == 'send':
+        w.call('send', s.sid, 'from-app')
+        w.run()
     elif a == 'vanish':
         s.vanished = True
         if s.ws is not None:
@@ -151,10 +170,21 @@ def api_probe(w, impl, ids, what, out, hist):
 
 
 def run_history(impl, hist, out):
-    w = peer.make_world(impl, server_kwargs=dict(ping_interval=INTERVAL, ping_timeout=TIMEOUT, monitor_clients=True),
+    ping_state = bool(hist) and hist[0] == '@ping'
+    iv = INTERVAL2 if ping_state else INTERVAL
+    w = peer.make_world(impl, server_kwargs=dict(ping_interval=iv, ping_timeout=TIMEOUT, monitor_clients=True),
                         behaviour=RejectOnHeader())
     ss, rejected = [], []
     try:
+        if ping_state:
+            # prepared state: one polling session whose first PING has just been delivered and is unanswered
+            hist = hist[1:]
+            apply_action(w, ss, rejected, 'open')
+            g = peer.poll(w, ss[0].sid)
+            w.run_until(INTERVAL2)
+            if not (g.done and g.status == 200 and (2, '') in peer.decode_body(g.text())):
+                V(out, impl, 'setup_failed', 'ping_state', 'no PING delivered at %.1f: %r' % (INTERVAL2, g.brief()), hist)
+                return None
         for a in hist:
             if not apply_action(w, ss, rejected, a):
                 return None
@@ -177,13 +207,13 @@ def run_history(impl, hist, out):
         t0 = w.now
         w.run_until(t0 + 2 * TIMEOUT + 0.5)
         live_ref = sorted(s.sid for s in ss if not s.ended)
-        if w.now < INTERVAL:      # nobody can have timed out yet
+        if w.now < iv and not ping_state:      # nobody can have timed out yet
             table = sorted(w.table_sids())
             if table != live_ref:
                 V(out, impl, 'table_not_exact_after_sweeps', 'sweep',
                   'table %r, reference live set %r (%.1fs after the history)' % ([x[-4:] for x in table], [x[-4:] for x in live_ref], w.now - t0), hist)
         # --- silence: everybody is eventually reaped, exactly one disconnect per accepted session
-        w.run_until(t0 + INTERVAL + 3 * TIMEOUT + 2 * TIMEOUT + 0.5 + INTERVAL)
+        w.run_until(t0 + iv + 3 * TIMEOUT + 2 * TIMEOUT + 0.5 + iv)
         if w.table_sids():
             V(out, impl, 'session_leaked', 'silence', 'table still holds %r after %.1fs of silence' % ([x[-4:] for x in w.table_sids()], w.now - t0), hist)
         for s in ss:
@@ -228,6 +258,9 @@ def run(ctx):
         a1 = ACTIONS[ctx.seed % len(ACTIONS)]
         hists += [('open', a1) + t for t in itertools.product(ACTIONS, repeat=3)]
     hists = [h for h in hists if not h or h[0] in ('open', 'open_rej', 'open_ws', 'tick')]
+    import itertools as _it
+    for k in range(0, (3 if ctx.quick else 4) + 1):
+        hists += [('@ping',) + t for t in _it.product(ACTIONS2, repeat=k)]
     jobs = [(impl, h) for impl in ('sync', 'async') for h in hists]
     res = parallel.pmap_chunks(_work, parallel.split(jobs, ctx.workers * 8), ctx.workers, ctx.seed, maxtasks=4)
     n = 0
@@ -247,9 +280,11 @@ def run(ctx):
                     {'history': ['open_rej', 'open_ws', 'close_post']}],
         'evaluations': n, 'distinct_nontrivial': n,
         'rule': 'every enabled history of <= %d actions over %r (first action an open or tick; histories whose next action is not '
-                'enabled are pruned) plus one complete seed-chosen slice one level deeper; each followed by API probes with '
-                'never-issued / rejected / disconnected ids, two monitor sweeps and silence past the heartbeat bound; both servers. '
-                'states = distinct canonical digests of the world reached by the histories (before the epilogue); transitions = scheduler steps executed; traces = enabled histories.' % (depth, ACTIONS),
+                'enabled are pruned) plus one complete seed-chosen slice one level deeper, plus every history of <= 3 (thorough 4) '
+                'actions over %r started from the prepared state "first PING outstanding" (ping_interval=2); each followed by API '
+                'probes with never-issued / rejected / disconnected ids, two monitor sweeps and silence past the heartbeat bound; '
+                'both servers. states = distinct canonical digests of the world reached by the histories (before the epilogue); '
+                'transitions = scheduler steps executed; traces = enabled histories.' % (depth, ACTIONS, ACTIONS2),
         'exhaustive': True, 'bound_completed': depth, 'violating_cases_total': nv,
     }
     rep.assumptions = [
